@@ -183,6 +183,26 @@ def leaf_cases(rng: random.Random, name: str, n: int):
             seqs = ("l:" + ";".join(str(e.tick) for e in be), "lf:" + ";".join(arg(float(e.bpm))[2:] for e in be),
                     "lt:" + ";".join(str(e.timestamp // US) for e in be))
             out.append((f"leaf tsat {arg(res)} {arg(tk)} {arg(h)} " + " ".join(seqs), call(lambda: be.timestamp_at_tick(tk, start_iteration_index=h))))
+        elif name == "tslower":
+            l = rng.choice([None, None, 0, 1, 2, 3, 4, 5, 16, 30, 64, rng.randint(0, 200)])
+            be = sync.BPMEvents(events=[sync.BPMEvent(tick=tick.Tick(0), timestamp=timedelta(0), bpm=120.0)], resolution=tick.Ticks(192))
+
+            def lower(v):
+                return sync.TimeSignatureEvent.from_parsed_data(sync.TimeSignatureEvent.ParsedData(tick=tick.Tick(0), upper=4, lower=v), None, be).lower_numeral
+            out.append((f"leaf tslower {'n:' if l is None else arg(l)}", call(lower, l)))
+        elif name == "bpmstep":
+            res = rng.choice([-1, 0, 1, 192, 480, rng.randint(1, 10**4)])
+            pt = rng.choice([0, rng.randint(0, 10**5), rng.randint(0, 2**40)])
+            t = pt + rng.choice([0, 1, 1, 2, rng.randint(1, 10**4), rng.randint(1, 10**8), -1])
+            b = rng.choice([rng.randint(1, 10**7) / 1000, 120.0, 0.0, 0.001, 999999.999])
+            pts = timedelta(microseconds=rng.choice([0, rng.randint(0, 10**9), rng.randint(0, 10**13)]))
+            k = rng.randint(0, 50)
+            prev = sync.BPMEvent(tick=tick.Tick(pt), timestamp=pts, bpm=b, _proximal_bpm_event_index=k)
+
+            def step():
+                return sync.BPMEvent.from_parsed_data(sync.BPMEvent.ParsedData(tick=tick.Tick(t), raw_bpm="120000"), prev, tick.Ticks(res)).timestamp
+            if t >= 0:
+                out.append((f"leaf bpmstep {arg(res)} {arg(t)} {arg(pt)} {arg(b)} {arg(pts)} {arg(k)}", call(step)))
         elif name == "anchor":
             us = rng.choice([0, 1, rng.randint(0, 10**9), rng.randint(2**53, 2**56), rng.randint(10**16, 8 * 10**19), 8670214808394963])
 
@@ -211,6 +231,16 @@ def rand_expr(rng, names, depth):
         n = rng.choice([0, 1, 2, 3, 60, 1000, rng.randint(0, 10**6), 1000000])
         return str(n), ["int", str(n)]
     r = rng.random()
+    if r < 0.04:
+        k = rng.choice([0, 1, 2, 5, 16, 31, 64, -1])
+        b = rng.choice([2, 2, 3, 10, -2, 0])
+        return f"(({b}) ** {k})", ["bin", "pow", "int", str(b), "int", str(k)]
+    if r < 0.08:
+        a, ta = rand_expr(rng, names, depth - 1)
+        b, tb = rand_expr(rng, names, depth - 1)
+        c, tc = rand_expr(rng, names, depth - 1)
+        d, td_ = rand_expr(rng, names, depth - 1)
+        return f"({a} if ({c} < {d}) else {b})", ["ifexp", "cmp", "lt"] + tc + td_ + ta + tb
     if r < 0.7:
         op, sym = rng.choice([("add", "+"), ("sub", "-"), ("mul", "*"), ("truediv", "/")])
         a, ta = rand_expr(rng, names, depth - 1)
